@@ -30,13 +30,180 @@ theorem isSubtype_congr (h : SameView S S') (a b : GType) : isSubtype S a b = is
 
 theorem checkValue_congr_all (h : SameView S S') :
     (∀ v ty, checkValue S v ty = checkValue S' v ty) ∧
-    (∀ vs ty, checkValueList S vs ty = checkValueList S' vs ty) ∧
-    (∀ fs n ty, checkFieldFind S fs n ty = checkFieldFind S' fs n ty) := by
+    (∀ fs n ty, checkFieldFind S fs n ty = checkFieldFind S' fs n ty) ∧
+    (∀ vs ty, checkValueList S vs ty = checkValueList S' vs ty) := by
   apply checkValue.mutual_induct (S := S)
-    (motive1 := fun v ty => checkValue S v ty = checkValue S' v ty)
-    (motive2 := fun vs ty => checkValueList S vs ty = checkValueList S' vs ty)
-    (motive3 := fun fs n ty => checkFieldFind S fs n ty = checkFieldFind S' fs n ty)
-  all_goals sorry
+    (motive_1 := fun v ty => checkValue S v ty = checkValue S' v ty)
+    (motive_2 := fun fs n ty => checkFieldFind S fs n ty = checkFieldFind S' fs n ty)
+    (motive_3 := fun vs ty => checkValueList S vs ty = checkValueList S' vs ty)
+  all_goals (intros; simp_all [checkValue, checkValueList, checkFieldFind, h.ty])
+
+theorem checkValue_congr (h : SameView S S') (v : Value) (ty : GType) : checkValue S v ty = checkValue S' v ty :=
+  (checkValue_congr_all h).1 v ty
+
+theorem checkArguments_congr (h : SameView S S') (p : Pos) (args : List Arg) (defs : List InputValueDef) :
+    checkArguments S p args defs = checkArguments S' p args defs := by
+  unfold checkArguments
+  simp only [checkValue_congr h]
+
+theorem checkDirective_congr (h : SameView S S') (loc : String) (b : Bool) (d : Directive) :
+    checkDirective S loc b d = checkDirective S' loc b d := by
+  unfold checkDirective
+  simp only [h.dir, checkArguments_congr h]
+
+theorem checkDirectivesAux_congr (h : SameView S S') (loc : String) (seen : List Name) (ds : List Directive) :
+    checkDirectivesAux S loc seen ds = checkDirectivesAux S' loc seen ds := by
+  induction ds generalizing seen with
+  | nil => rfl
+  | cons d ds ih => simp only [checkDirectivesAux, checkDirective_congr h, h.dir, ih]
+
+theorem checkDirectives_congr (h : SameView S S') (loc : String) (ds : List Directive) :
+    checkDirectives S loc ds = checkDirectives S' loc ds :=
+  checkDirectivesAux_congr h loc [] ds
+
+theorem checkValidImpl_congr (h : SameView S S') (np : Pos) (fields : List FieldDef) (impl : List (Name × Pos))
+    (iface : TypeDef) : checkValidImpl S np fields impl iface = checkValidImpl S' np fields impl iface := by
+  unfold checkValidImpl
+  simp only [isSubtype_congr h]
+
+theorem checkOutputFieldType_congr (h : SameView S S') (ty : GType) :
+    checkOutputFieldType S ty = checkOutputFieldType S' ty := by
+  unfold checkOutputFieldType
+  rw [h.kind]
+
+theorem checkInputValueType_congr (h : SameView S S') (ty : GType) :
+    checkInputValueType S ty = checkInputValueType S' ty := by
+  unfold checkInputValueType
+  rw [h.kind]
+
+theorem checkArgsDef_congr (h : SameView S S') (args : List InputValueDef) :
+    checkArgsDef S args = checkArgsDef S' args := by
+  unfold checkArgsDef
+  simp only [checkInputValueType_congr h, checkDirectives_congr h]
+
+theorem checkFields_congr (h : SameView S S') (fields : List FieldDef) :
+    checkFields S fields = checkFields S' fields := by
+  unfold checkFields
+  simp only [checkOutputFieldType_congr h, checkDirectives_congr h, checkArgsDef_congr h]
+
+theorem checkEnumValues_congr (h : SameView S S') (vs : List EnumValueDef) :
+    checkEnumValues S vs = checkEnumValues S' vs := by
+  unfold checkEnumValues
+  simp only [checkDirectives_congr h]
+
+theorem checkInputFields_congr (h : SameView S S') (fs : List InputValueDef) :
+    checkInputFields S fs = checkInputFields S' fs := by
+  unfold checkInputFields
+  simp only [checkInputValueType_congr h, checkDirectives_congr h]
 
 end ts
+
+/-- what the checker reads of the raw document `T` besides the schema view: the last-wins lookups of the
+    `DefinitionMap` and the number of definitions (fuel bound of the directive-recursion search) -/
+structure SameDefMap (T T' : TsDoc) : Prop where
+  ty : ∀ n, lastTypeDef? T n = lastTypeDef? T' n
+  dir : ∀ n, lastDirectiveDef? T n = lastDirectiveDef? T' n
+  len : T.length = T'.length
+
+section doc
+variable {T T' : TsDoc} {S S' : Schema}
+
+theorem checkObjectImplements_congr (hT : SameDefMap T T') (h : SameView S S') (t : TypeDef) :
+    checkObjectImplements T S t = checkObjectImplements T' S' t := by
+  unfold checkObjectImplements
+  simp only [hT.ty, checkValidImpl_congr h]
+
+theorem checkInterfaceImplements_congr (hT : SameDefMap T T') (h : SameView S S') (t : TypeDef) :
+    checkInterfaceImplements T S t = checkInterfaceImplements T' S' t := by
+  unfold checkInterfaceImplements
+  simp only [hT.ty, checkValidImpl_congr h]
+
+theorem checkUnionMembers_congr (hT : SameDefMap T T') (ms : List (Name × Pos)) :
+    checkUnionMembers T ms = checkUnionMembers T' ms := by
+  unfold checkUnionMembers
+  simp only [hT.ty]
+
+theorem dirSuccessors_congr (hT : SameDefMap T T') (d : DirectiveDef) : dirSuccessors T d = dirSuccessors T' d := by
+  unfold dirSuccessors
+  simp only [hT.ty, hT.dir]
+
+theorem recRound_congr (hT : SameDefMap T T') (start : Name) (seen : List Name) (ds : List DirectiveDef) :
+    recRound T start seen ds = recRound T' start seen ds := by
+  induction ds generalizing seen with
+  | nil => rfl
+  | cons d ds ih => simp only [recRound, ih, dirSuccessors_congr hT]
+
+theorem recLoop_congr (hT : SameDefMap T T') (start : Name) (fuel : Nat) (seen : List Name) (cur : List DirectiveDef) :
+    recLoop T start fuel seen cur = recLoop T' start fuel seen cur := by
+  induction fuel generalizing seen cur with
+  | zero => rfl
+  | succ n ih => simp only [recLoop, recRound_congr hT, ih]
+
+theorem checkDirectiveRecursion_congr (hT : SameDefMap T T') (d : DirectiveDef) :
+    checkDirectiveRecursion T d = checkDirectiveRecursion T' d := by
+  unfold checkDirectiveRecursion
+  rw [hT.len, recLoop_congr hT]
+
+theorem checkTypeDef_congr (hT : SameDefMap T T') (h : SameView S S') (t : TypeDef) :
+    checkTypeDef T S t = checkTypeDef T' S' t := by
+  unfold checkTypeDef
+  simp only [checkDirectives_congr h, checkFields_congr h, checkObjectImplements_congr hT h,
+    checkInterfaceImplements_congr hT h, checkUnionMembers_congr hT, checkEnumValues_congr h,
+    checkInputFields_congr h]
+
+theorem checkDirectiveDef_congr (hT : SameDefMap T T') (h : SameView S S') (d : DirectiveDef) :
+    checkDirectiveDef T S d = checkDirectiveDef T' S' d := by
+  unfold checkDirectiveDef
+  rw [checkDirectiveRecursion_congr hT, checkArgsDef_congr h]
+
+theorem checkItem_congr (hT : SameDefMap T T') (h : SameView S S') (x : TsItem) :
+    checkItem T S x = checkItem T' S' x := by
+  cases x with
+  | schemaDef s => simp only [checkItem, checkSchemaDef, checkDirectives_congr h]
+  | typeDef t => simp only [checkItem, checkTypeDef_congr hT h]
+  | directiveDef d => simp only [checkItem, checkDirectiveDef_congr hT h]
+  | schemaExt _ => rfl
+  | typeExt _ => rfl
+
+end doc
+
+/-! ### a permutation of a name-distinct document has the same lookups -/
+
+theorem find?_reverse_eq_of_unique {α : Type} (p : α → Bool) (l : List α) (uniq : (l.filter p).length ≤ 1) :
+    l.reverse.find? p = l.find? p :=
+  (find?_perm_of_unique p (List.reverse_perm l).symm uniq).symm
+
+theorem lastTypeDef?_eq_typeDef? {T : TsDoc} (nd : NoDupTypeNames T) (n : Name) :
+    lastTypeDef? T n = (Schema.mk T).typeDef? n :=
+  find?_reverse_eq_of_unique _ _ (filter_length_le_one_of_nodup (fun t : TypeDef => t.name) _ nd n)
+
+theorem lastDirectiveDef?_eq_directiveDef? {T : TsDoc} (nd : NoDupDirectiveNames T) (n : Name) :
+    lastDirectiveDef? T n = (Schema.mk T).directiveDef? n :=
+  find?_reverse_eq_of_unique _ _ (filter_length_le_one_of_nodup (fun d : DirectiveDef => d.name) _ nd n)
+
+theorem NoDupTypeNames.perm {T T' : TsDoc} (h : T.Perm T') (nd : NoDupTypeNames T) : NoDupTypeNames T' :=
+  ((typeDefs_perm h).map _).nodup_iff.mp nd
+
+theorem NoDupDirectiveNames.perm {T T' : TsDoc} (h : T.Perm T') (nd : NoDupDirectiveNames T) :
+    NoDupDirectiveNames T' :=
+  ((directiveDefs_perm h).map _).nodup_iff.mp nd
+
+theorem sameView_of_perm {T T' : TsDoc} (h : T.Perm T') (ndt : NoDupTypeNames T) (ndd : NoDupDirectiveNames T) :
+    SameView ⟨T⟩ ⟨T'⟩ :=
+  ⟨fun n => find?_perm_of_unique _ (typeDefs_perm h) (filter_length_le_one_of_nodup (fun t : TypeDef => t.name) _ ndt n),
+   fun n => find?_perm_of_unique _ (directiveDefs_perm h)
+     (filter_length_le_one_of_nodup (fun d : DirectiveDef => d.name) _ ndd n)⟩
+
+theorem sameDefMap_of_perm {T T' : TsDoc} (h : T.Perm T') (ndt : NoDupTypeNames T) (ndd : NoDupDirectiveNames T) :
+    SameDefMap T T' := by
+  have hv := sameView_of_perm h ndt ndd
+  refine ⟨fun n => ?_, fun n => ?_, h.length_eq⟩
+  · rw [lastTypeDef?_eq_typeDef? ndt, lastTypeDef?_eq_typeDef? (ndt.perm h), hv.ty]
+  · rw [lastDirectiveDef?_eq_directiveDef? ndd, lastDirectiveDef?_eq_directiveDef? (ndd.perm h), hv.dir]
+
+/-- the per-definition rule set of the concrete checker is the same function for both orders -/
+theorem checkItem_perm {T T' : TsDoc} (h : T.Perm T') (ndt : NoDupTypeNames T) (ndd : NoDupDirectiveNames T) :
+    checkItem T ⟨T⟩ = checkItem T' ⟨T'⟩ :=
+  funext fun x => checkItem_congr (sameDefMap_of_perm h ndt ndd) (sameView_of_perm h ndt ndd) x
+
 end NitroVerif.Determinism
